@@ -96,8 +96,11 @@ def _get_bytes(val, length):
         frm_str = '{0:0' + str(length) + 'd}'
         return frm_str.format(val).encode('utf-8')
     elif isinstance(val, str):
-        frm_str = '{0:' + str(length) + 's}'
-        return frm_str.format(val).encode('utf-8')
+        # NB: the field width is in bytes, and a character may require more than one byte
+        out = val.encode('utf-8')
+        if len(out) < length:
+            out += b' '*(length - len(out))
+        return out
     elif isinstance(val, bytes):
         if len(val) >= length:
             return val[:length]
@@ -178,14 +181,18 @@ def _parse_str(val, length, default, name, instance):
         val = str(val)
 
     val = val.rstrip()
-    if len(val) <= length:
+    # NB: the field width is in bytes, and a character may require more than one byte
+    if len(val.encode('utf-8')) <= length:
         return val
     else:
         logger.warning(
             'Got string input value of length {} for attribute {} of class {}, '
             'which is longer than the allowed length {}, so '
             'truncating'.format(len(val), name, instance.__class__.__name__, length))
-        return val[:length]
+        val = val[:length]
+        while len(val.encode('utf-8')) > length:
+            val = val[:-1]
+        return val
 
 
 def _parse_bytes(val, length, default, name, instance):
